@@ -8,6 +8,7 @@ CONSTANTS
  MaxGen = 2
  DirUsable = TRUE
  IoFaults = 1
+ WriteFaults = 0
  EarlyHandBack = TRUE
 INVARIANTS FilesOfAcceptedImpl
 PROPERTIES Refines
